@@ -139,6 +139,12 @@ func Render(c Case, perm int64) (map[string]string, error) {
 			return nil, err
 		}
 	}
+	// more files that share a version with a plan file (only the names tell them apart), and one without a version
+	for _, n := range []string{"100_aa_more.sql", "100_zz_more.sql", "101_b.sql", "101.sql", "seed.sql"} {
+		if err := dir.WriteFile(n, []byte("SELECT 1;\n")); err != nil {
+			return nil, err
+		}
+	}
 	hf, err := dir.Checksum()
 	if err != nil {
 		return nil, err
